@@ -119,6 +119,7 @@ func (s *DB) batchTimeoutHandle(ctx context.Context) {
 				s.mutBatch.Unlock()
 				continue
 			}
+			verifPoint("db.timer.betweenWriteAndReset")
 
 			s.batch.Reset()
 			s.sizeBatch = 0
